@@ -1,9 +1,8 @@
 (* C03, tree level, WHOLE subroutine bodies and programs: the documented normalisation of a canonical
    program is again canonical, so - C02 program_roundtrip - its tokens parse to exactly the normalised
    tree.  Composition of the per-construct lemmas (FmtTreeExpr / FmtTreeStmt) through the statement
-   and block structure of the parser model.  Side condition [books]: the duplicate-case test of every
-   switch still passes on the normalised case tests (it does NOT in general: see
-   [full_statement_refuted] below). *)
+   and block structure of the parser model; unconditional for statements, blocks, chains and switches
+   (the duplicate-case bookkeeping compares [clabel], which the normalisation does not change: [book_n]). *)
 From Coq Require Import String.
 From Coq Require Import List NArith ZArith Bool Lia.
 From Falco Require Import Base.Bytes Gen.TokenTypes Model.ParseKinds Gen.ParserTables.
@@ -23,21 +22,6 @@ End AllP.
 Section B.
 Variable c : FmtTok.fmt_config.
 Variable fok : str -> bool.
-
-(* the switch bookkeeping (duplicate case, one default) succeeds on the normalised clauses *)
-Fixpoint books (fn : bool) (s : stmt) : Prop :=
-  match s with
-  | SBlock _ b _ => allp (books fn) b
-  | SIf _ _ _ _ _ b _ another els =>
-      allp (books fn) b
-      /\ allp (fun e => match e with Elif _ _ _ _ _ _ b' _ => allp (books fn) b' end) another
-      /\ match els with Some (_, _, b', _) => allp (books fn) b' | None => True end
-  | SSwitch _ _ ctl _ _ cases d _ =>
-      book [] (-1)%Z (map (ncase c fn) cases) = Some d
-      /\ cctl fok (nexpr c ctl)            (* the control stays a control (not proved in general) *)
-      /\ allp (fun cs => match cs with Case _ _ b' _ => allp (books fn) b' end) cases
-  | _ => True
-  end.
 
 (* the token that follows a statement, before and after: same type, or remove -> unset *)
 Definition sim (a b : token) : Prop := typ b = typ a \/ (typ a = T_REMOVE /\ typ b = T_UNSET).
@@ -161,13 +145,6 @@ Qed.
 (* ---------------------------------------------------------------- statements, blocks, chains *)
 Definition nels fn (els : option (token * token * list stmt * token)) :=
   match els with Some (k, lb', b', rb') => Some (k, lb', map (nstmt c fn) b', rb') | None => None end.
-Definition bk_elifs fn (another : list elif) :=
-  allp (fun e => match e with Elif _ _ _ _ _ _ b' _ => allp (books fn) b' end) another.
-Definition bk_els fn (els : option (token * token * list stmt * token)) :=
-  match els with Some (_, _, b', _) => allp (books fn) b' | None => True end.
-Definition bk_cases fn (cases : list scase) :=
-  allp (fun cs => match cs with Case _ _ b' _ => allp (books fn) b' end) cases.
-
 Lemma cstmt_remove_ok s nx : cstmt fok s nx -> remove_ok s.
 Proof.
   intros H. destruct s; cbn [remove_ok]; auto. inversion H as [? ? Hc| | | | |]; subst.
@@ -216,6 +193,90 @@ Proof.
   unfold last_case_breaks. rewrite <- map_rev. destruct (rev cs) as [|[h cl b ft] r]; auto.
 Qed.
 
+(* the switch control stays a control: the second token of the expression is "+", unchanged, or a token
+   that can be juxtaposed - never a parenthesis *)
+Lemma second_mark e : canon fok e -> typ (hdt (tl (yexpr e))) <> T_LEFT_PAREN ->
+  typ (hdt (tl (yexpr (mark_explicit e)))) <> T_LEFT_PAREN.
+Proof.
+  intros Hc H. rewrite <- (ins_plus_yexpr fok e Hc).
+  destruct (yexpr e) as [|x [|y r]]; cbn [ins_plus tl hdt hd app andb]; try discriminate.
+  destruct (t_opend (typ x) && t_juxt (typ y)); cbn [app hd]; [discriminate|exact H].
+Qed.
+
+Lemma juxt_not_lparen t : t_juxt t = true -> t <> T_LEFT_PAREN.
+Proof. intros H E. subst t. discriminate H. Qed.
+
+Lemma second_unmark e : canon fok e -> typ (hdt (tl (yexpr e))) <> T_LEFT_PAREN ->
+  typ (hdt (tl (yexpr (unmark e)))) <> T_LEFT_PAREN.
+Proof.
+  intros Hc H. rewrite <- (del_plus_yexpr fok e Hc).
+  destruct (yexpr e) as [|x [|y r]]; cbn [del_plus tl hdt hd andb]; try discriminate.
+  cbn [andb]. destruct (t_opend (typ x) && is_plus (typ y) && t_juxt (typ (hd eof_tok r))) eqn:E; cbn [tl hd]; [|exact H].
+  apply andb_true_iff in E as [_ E]. destruct r as [|z r']; [discriminate E|].
+  cbn [del_plus andb hd] in *. now apply juxt_not_lparen.
+Qed.
+
+Lemma cctl_n e : cctl fok e -> cctl fok (nexpr c e).
+Proof.
+  intros H.
+  assert (G : forall e, cexpr e /\ (typ (hdt (yexpr e)) = T_TRUE \/ typ (hdt (yexpr e)) = T_FALSE \/ typ (hdt (yexpr e)) = T_STRING)
+                      /\ typ (hdt (tl (yexpr e))) <> T_LEFT_PAREN ->
+              cexpr (nexpr c e) /\ (typ (hdt (yexpr (nexpr c e))) = T_TRUE \/ typ (hdt (yexpr (nexpr c e))) = T_FALSE
+                                    \/ typ (hdt (yexpr (nexpr c e))) = T_STRING)
+              /\ typ (hdt (tl (yexpr (nexpr c e)))) <> T_LEFT_PAREN).
+  { intros e0 (A & B & C). split; [now apply cexpr_nexpr|]. split; [now rewrite hd_nexpr|].
+    destruct A as [A _]. unfold nexpr. destruct (FmtTok.explicit_string_concat c); [now apply second_mark|now apply second_unmark]. }
+  destruct e; cbn [cctl] in H; try (specialize (G _ H)).
+  all: try (rewrite nexpr_ident; exact H).
+  all: try (rewrite nexpr_call; cbn [cctl]; destruct H as (A & B & C & D); repeat split; auto; now apply canon_nargs).
+  all: unfold nexpr in *; destruct (FmtTok.explicit_string_concat c); cbn [mark_explicit unmark cctl] in *; try exact G.
+  all: try (destruct explicit; [destruct (t_juxt _)|]; exact G).
+Qed.
+
+(* the label the parser compares case tests by spells every concatenation with its operator: the
+   normalisation does not change it, so the duplicate-case bookkeeping of a switch is unchanged *)
+Lemma clabel_mark :
+  (forall e, clabel (mark_explicit e) = clabel e)
+  /\ (forall a, alabel (mark_args a) = alabel a) /\ (forall m, atlabel (mark_tail m) = atlabel m).
+Proof.
+  apply expr_args_ind; intros; cbn [mark_explicit mark_args mark_tail clabel alabel atlabel]; try congruence.
+  rewrite H, H0. reflexivity.
+Qed.
+
+Lemma clabel_unmark :
+  (forall e, clabel (unmark e) = clabel e)
+  /\ (forall a, alabel (unmark_args a) = alabel a) /\ (forall m, atlabel (unmark_tail m) = atlabel m).
+Proof.
+  apply expr_args_ind; intros; cbn [unmark unmark_args unmark_tail clabel alabel atlabel]; try congruence.
+  destruct explicit; [destruct (t_juxt (typ (head r)))|]; cbn [clabel]; rewrite ?H, ?H0; reflexivity.
+Qed.
+
+Lemma clabel_nexpr e : clabel (nexpr c e) = clabel e.
+Proof. unfold nexpr. destruct (FmtTok.explicit_string_concat c); [apply clabel_mark|apply clabel_unmark]. Qed.
+
+Lemma ncase_eq fn h cl b ft : ncase c fn (Case h cl b ft) = Case (nhead c h) cl (map (nstmt c fn) b) ft.
+Proof. reflexivity. Qed.
+
+Lemma dup_case_n fn a b : dup_case (ncase c fn a) (ncase c fn b) = dup_case a b.
+Proof.
+  destruct a as [ha ? ? ?], b as [hb ? ? ?]. rewrite !ncase_eq.
+  destruct ha as [? [x|? x]|?], hb as [? [y|? y]|?]; cbn [nhead dup_case]; rewrite ?clabel_nexpr; reflexivity.
+Qed.
+
+Lemma is_default_n fn a : is_default (ncase c fn a) = is_default a.
+Proof. destruct a as [h ? ? ?]. rewrite ncase_eq. destruct h as [? [x|? x]|?]; reflexivity. Qed.
+
+Lemma book_n fn : forall cs acc d, book (map (ncase c fn) acc) d (map (ncase c fn) cs) = book acc d cs.
+Proof.
+  induction cs as [|cl r IH]; intros acc d; cbn [book map]; [reflexivity|].
+  rewrite is_default_n, map_length.
+  assert (E : existsb (dup_case (ncase c fn cl)) (map (ncase c fn) acc) = existsb (dup_case cl) acc).
+  { induction acc as [|a acc IHa]; cbn [existsb map]; [reflexivity|]. now rewrite dup_case_n, IHa. }
+  rewrite E.
+  destruct (if is_default cl then if negb (d =? -1)%Z then None else Some (Z.of_nat (length acc)) else Some d); [|reflexivity].
+  destruct (existsb (dup_case cl) acc); [reflexivity|]. exact (IH (cl :: acc) z).
+Qed.
+
 Lemma nelif_eq fn k1 k2 lp cnd rp lb b rb :
   nelif c fn (Elif k1 k2 lp cnd rp lb b rb) =
     match k2 with
@@ -226,51 +287,54 @@ Lemma nelif_eq fn k1 k2 lp cnd rp lb b rb :
 Proof. reflexivity. Qed.
 
 Theorem norm_canonical :
-  (forall s nx, cstmt fok s nx -> forall fn nx', sim nx nx' -> books fn s -> cstmt fok (nstmt c fn s) nx')
-  /\ (forall ss rb, cblock fok ss rb -> forall fn, allp (books fn) ss -> cblock fok (map (nstmt c fn) ss) rb)
-  /\ (forall an els nx, cchain fok an els nx -> forall fn nx', sim nx nx' -> bk_elifs fn an -> bk_els fn els ->
+  (forall s nx, cstmt fok s nx -> forall fn nx', sim nx nx' -> cstmt fok (nstmt c fn s) nx')
+  /\ (forall ss rb, cblock fok ss rb -> forall fn, cblock fok (map (nstmt c fn) ss) rb)
+  /\ (forall an els nx, cchain fok an els nx -> forall fn nx', sim nx nx' ->
         cchain fok (map (nelif c fn) an) (nels fn els) nx')
-  /\ (forall cs rb, ccases fok cs rb -> forall fn, bk_cases fn cs -> ccases fok (map (ncase c fn) cs) rb)
-  /\ (forall ss ft nx, cbody fok ss ft nx -> forall fn, allp (books fn) ss -> cbody fok (map (nstmt c fn) ss) ft nx).
+  /\ (forall cs rb, ccases fok cs rb -> forall fn, ccases fok (map (ncase c fn) cs) rb)
+  /\ (forall ss ft nx, cbody fok ss ft nx -> forall fn, cbody fok (map (nstmt c fn) ss) ft nx).
 Proof.
   apply cstmt_all_ind.
-  - (* simple *) intros s nx H fn nx' Hs _. apply c_simple. now apply (csimple_n fn s nx nx').
+  - (* simple *) intros s nx H fn nx' Hs. apply c_simple. now apply (csimple_n fn s nx nx').
   - (* function call *) intros. cbn [nstmt]. apply c_funcall; auto. now apply canon_nargs.
-  - (* label *) intros name nx A B C fn nx' Hs _. cbn [nstmt]. apply c_label; auto.
+  - (* label *) intros name nx A B C fn nx' Hs. cbn [nstmt]. apply c_label; auto.
     apply (sim_not nx nx'); auto. discriminate.
-  - (* block *) intros lb ss rb nx A B IH fn nx' Hs Hb. cbn [nstmt]. apply c_block; auto.
-  - (* if *) intros kw lp cnd rp lb b rb an els nx A B C D E F IHb G IHc fn nx' Hs (H1 & H2 & H3).
+  - (* block *) intros lb ss rb nx A B IH fn nx' Hs. cbn [nstmt]. apply c_block; auto.
+  - (* if *) intros kw lp cnd rp lb b rb an els nx A B C D E F IHb G IHc fn nx' Hs.
     cbn [nstmt]. fold (nels fn els). apply c_if; auto. now apply cexpr_nexpr.
-  - (* switch *) intros kw lp ctl rp lb cases d rb nx A B C D E F IHc G H fn nx' Hs (H1 & H2 & H3).
-    cbn [nstmt]. apply c_switch; auto. now apply last_case_n.
-  - (* empty block *) intros rb A fn _. now apply cb_nil.
-  - (* block cons *) intros s ss rb A IHs B IHb fn (H1 & H2). cbn [map]. apply cb_cons; auto.
+  - (* switch *) intros kw lp ctl rp lb cases d rb nx A B C D E F IHc G H fn nx' Hs.
+    cbn [nstmt]. apply c_switch; auto.
+    + now apply cctl_n.
+    + rewrite <- G. exact (book_n fn cases [] (-1)%Z).
+    + now apply last_case_n.
+  - (* empty block *) intros rb A fn. now apply cb_nil.
+  - (* block cons *) intros s ss rb A IHs B IHb fn. cbn [map]. apply cb_cons; auto.
     apply (IHs fn); auto. now apply hd_block.
-  - (* chain end *) intros nx A fn nx' Hs _ _. apply cc_none. now apply (sim_else nx nx').
-  - (* else *) intros k lb ss rb nx A B C IH fn nx' Hs _ H. cbn [map nels]. apply cc_else; auto.
-  - (* else if *) intros k1 k2 lp cnd rp lb b rb more els nx A B C D E F IHb G IHc fn nx' Hs (H1 & H2) H3.
+  - (* chain end *) intros nx A fn nx' Hs. apply cc_none. now apply (sim_else nx nx').
+  - (* else *) intros k lb ss rb nx A B C IH fn nx' Hs. cbn [map nels]. apply cc_else; auto.
+  - (* else if *) intros k1 k2 lp cnd rp lb b rb more els nx A B C D E F IHb G IHc fn nx' Hs.
     cbn [map]. rewrite nelif_eq. destruct k2 as [i|].
-    + apply cc_elif; [exact A|auto|now apply cexpr_nexpr|auto|auto|exact (IHb fn H1)|now apply IHc].
+    + apply cc_elif; [exact A|auto|now apply cexpr_nexpr|auto|auto|exact (IHb fn)|now apply IHc].
     + destruct (FmtTok.else_if c).
-      * apply cc_elif; [split; reflexivity|auto|now apply cexpr_nexpr|auto|auto|exact (IHb fn H1)|now apply IHc].
-      * apply cc_elif; [exact A|auto|now apply cexpr_nexpr|auto|auto|exact (IHb fn H1)|now apply IHc].
-  - (* no case *) intros rb A fn _. now apply cs_nil.
-  - (* case *) intros h cl body ft cs rb A B C IHb D IHc fn (H1 & H2). cbn [map ncase]. apply cs_cons; auto.
+      * apply cc_elif; [split; reflexivity|auto|now apply cexpr_nexpr|auto|auto|exact (IHb fn)|now apply IHc].
+      * apply cc_elif; [exact A|auto|now apply cexpr_nexpr|auto|auto|exact (IHb fn)|now apply IHc].
+  - (* no case *) intros rb A fn. now apply cs_nil.
+  - (* case *) intros h cl body ft cs rb A B C IHb D IHc fn. cbn [map ncase]. apply cs_cons; auto.
     + now apply chead_n.
     + rewrite hd_cases. now apply IHb.
-  - intros kw sm nx A B C fn _. now apply cy_break.
-  - intros kw sm nx A B C fn _. now apply cy_fall.
-  - intros s ss ft nx A IHs B IHb fn (H1 & H2). cbn [map]. apply cy_cons; auto.
+  - intros kw sm nx A B C fn. now apply cy_break.
+  - intros kw sm nx A B C fn. now apply cy_fall.
+  - intros s ss ft nx A IHs B IHb fn. cbn [map]. apply cy_cons; auto.
     apply (IHs fn); auto. now apply (hd_body fn ss ft nx).
+  - intros kw sm ss ft nx A B C IH fn. cbn [map nstmt]. apply cy_mid_break; auto.
+  - intros kw sm ss ft nx A B C IH fn. cbn [map nstmt]. apply cy_mid_fall; auto.
 Qed.
 
 (* ---------------------------------------------------------------- declarations and programs *)
-(* side conditions per declaration: [books] for the bodies; backend / director / table declarations are
-   required to be fixed points of the normalisation (their property values are not composed here) *)
+(* the remaining side condition: backend / director / table declarations are fixed points of the
+   normalisation (their property values and the trailing comma of a table are not composed here) *)
 Definition dbooks (d : stmt) : Prop :=
   match d with
-  | DSub _ _ _ ret _ b _ => allp (books (match ret with Some _ => true | None => false end)) b
-  | DPenaltybox _ _ _ b _ | DRatecounter _ _ _ b _ => allp (books false) b
   | DBackend _ _ _ _ _ | DDirector _ _ _ _ _ _ | DTable _ _ _ _ _ _ => nstmt c false d = d
   | _ => True
   end.
@@ -284,15 +348,15 @@ Proof.
   - (* backend *) cbn [dbooks] in Hb. rewrite Hb. exact H.
   - (* director *) cbn [dbooks] in Hb. rewrite Hb. exact H.
   - (* table *) cbn [dbooks] in Hb. rewrite Hb. exact H.
-  - (* sub *) destruct H as (A & B & C & D & E & F). cbn [dbooks] in Hb. cbn [nstmt cdeclx cdecl].
+  - (* sub *) destruct H as (A & B & C & D & E & F). cbn [nstmt cdeclx cdecl].
     split; [exact A|]. split; [exact B|]. split.
     { destruct params as [[[lp ps] rp]|]; auto. destruct ps; auto. }
     split; [exact D|]. split; [exact E|].
-    exact (proj1 (proj2 norm_canonical) b rb F _ Hb).
+    exact (proj1 (proj2 norm_canonical) b rb F _).
   - (* penaltybox *) destruct H as (A & B & C & D). cbn [nstmt cdeclx cdecl]. repeat split; auto.
-    exact (proj1 (proj2 norm_canonical) b rb D _ Hb).
+    exact (proj1 (proj2 norm_canonical) b rb D _).
   - (* ratecounter *) destruct H as (A & B & C & D). cbn [nstmt cdeclx cdecl]. repeat split; auto.
-    exact (proj1 (proj2 norm_canonical) b rb D _ Hb).
+    exact (proj1 (proj2 norm_canonical) b rb D _).
 Qed.
 
 Theorem cprog_n : forall ds, cprog fok ds -> allp dbooks ds -> cprog fok (map (nstmt c false) ds).
@@ -319,7 +383,7 @@ End B.
 (* ---------------------------------------------------------------- non-vacuity: the witness program of C02
    (a typed sub with a juxtaposition, an elsif, a switch, return (true); and an acl) under a configuration
    where every rewrite applies *)
-Example ex_prog_books : allp (dbooks FmtExamples.ex_conf (fun _ => true)) ex_prog.
+Example ex_prog_books : allp (dbooks FmtExamples.ex_conf) ex_prog.
 Proof. vm_compute. repeat split; reflexivity. Qed.
 
 Example ex_prog_norm_parses :
@@ -330,43 +394,52 @@ Proof. exact (program_norm_parses _ _ ex_prog ex_prog_canonical ex_prog_books). 
 Example ex_prog_norm_changes : norm_vcl FmtExamples.ex_conf (Vcl ex_prog false) <> Vcl ex_prog false.
 Proof. intros H. vm_compute in H. discriminate H. Qed.
 
-(* ---------------------------------------------------------------- the side condition [books] is needed:
-   sub f { switch (x) { case "a" "b": break; case "a" + "b": break; } }
-   parses (the duplicate test of the parser compares the SPELLING of the case tests), its normalisation -
-   either value of explicit_string_concat - spells both tests alike and no longer parses.  Replayed on the
-   real formatter and parser: corpus/C03/known_duplicate_case_by_concat.vcl (known finding). *)
+(* ---------------------------------------------------------------- case tests with concatenations:
+   sub f { switch (x) { case "a" "b": break; case "c" + "d": break; } }
+   (until parser fix a5b80c6 the duplicate test compared spellings and `case "a" "b":` / `case "a" + "b":` was a
+   program whose formatted text did not parse; now [clabel] spells both alike, the source itself is rejected, and
+   [book_n] shows that the normalisation never changes the bookkeeping) *)
 Definition case_e (e : expr) (body : list stmt) : scase :=
   Case (CCase (k_ T_CASE "case") (CTEq e)) (k_ T_COLON ":") body false.
-Definition ex_dup : list stmt :=
+Definition ex_cases : list stmt :=
   [ DSub (k_ T_SUBROUTINE "sub") (k_ T_IDENT "f") None None (k_ T_LEFT_BRACE "{")
       [ sw [ case_e (EConcat (EString (tstr "a") (s2b "a")) (EString (tstr "b") (s2b "b"))) [brk];
-             case_e (EInfix (EString (tstr "a") (s2b "a")) plus_tok true (EString (tstr "b") (s2b "b"))) [brk] ] ]
+             case_e (EInfix (EString (tstr "c") (s2b "c")) plus_tok true (EString (tstr "d") (s2b "d"))) [brk] ] ]
       (k_ T_RIGHT_BRACE "}") ].
 
-Example ex_dup_parses : parse_vcl (fun _ => true) (flat_map ystmt ex_dup) = POK (Vcl ex_dup false).
+Example ex_cases_parses : parse_vcl (fun _ => true) (flat_map ystmt ex_cases) = POK (Vcl ex_cases false).
 Proof. vm_compute. reflexivity. Qed.
 
-Example ex_dup_norm_fails c :
-  exists t n, parse_vcl (fun _ => true) (flat_map ystmt (vstmts (norm_vcl c (Vcl ex_dup false)))) = PErr E_dup_case t n.
+Example ex_cases_norm_parses c :
+  parse_vcl (fun _ => true) (flat_map ystmt (vstmts (norm_vcl c (Vcl ex_cases false)))) = POK (norm_vcl c (Vcl ex_cases false)).
 Proof.
-  unfold norm_vcl, ex_dup, sw, case_e. cbn [vstmts map nstmt ncase nhead]. unfold nexpr.
-  destruct (FmtTok.explicit_string_concat c); vm_compute; eexists; eexists; reflexivity.
+  unfold norm_vcl, ex_cases, sw, case_e. cbn [vstmts map nstmt ncase nhead]. unfold nexpr.
+  destruct (FmtTok.explicit_string_concat c); vm_compute; reflexivity.
 Qed.
 
-(* ... and for this program the tokens of the normalised tree are the significant tokens of the
-   formatter's token model on the tokens of the source *)
-Example ex_dup_token_model :
-  map to_tok (flat_map ystmt (vstmts (norm_vcl FmtTok.default_config (Vcl ex_dup false))))
-  = FmtTok.significant (FmtNorm.norm FmtTok.default_config (to_elts (flat_map ystmt ex_dup))).
+(* the two spellings of one test are one label: the source is rejected *)
+Example ex_dup_rejected :
+  exists t n, parse_vcl (fun _ => true) (flat_map ystmt
+    [ DSub (k_ T_SUBROUTINE "sub") (k_ T_IDENT "f") None None (k_ T_LEFT_BRACE "{")
+        [ sw [ case_e (EConcat (EString (tstr "a") (s2b "a")) (EString (tstr "b") (s2b "b"))) [brk];
+               case_e (EInfix (EString (tstr "a") (s2b "a")) plus_tok true (EString (tstr "b") (s2b "b"))) [brk] ] ]
+        (k_ T_RIGHT_BRACE "}") ]) = PErr E_dup_case t n.
+Proof. vm_compute. eexists. eexists. reflexivity. Qed.
+
+(* for these programs the tokens of the normalised tree are the significant tokens of the formatter's token
+   model on the tokens of the source *)
+Example ex_cases_token_model :
+  map to_tok (flat_map ystmt (vstmts (norm_vcl FmtTok.default_config (Vcl ex_cases false))))
+  = FmtTok.significant (FmtNorm.norm FmtTok.default_config (to_elts (flat_map ystmt ex_cases))).
 Proof. vm_compute. reflexivity. Qed.
 
-Theorem unconditional_refuted :
-  ~ (forall fok c ds, parse_vcl fok (flat_map ystmt ds) = POK (Vcl ds false) ->
-       parse_vcl fok (flat_map ystmt (vstmts (norm_vcl c (Vcl ds false)))) = POK (norm_vcl c (Vcl ds false))).
-Proof.
-  intros H. specialize (H (fun _ => true) FmtTok.default_config ex_dup ex_dup_parses).
-  destruct (ex_dup_norm_fails FmtTok.default_config) as (t & n & E). rewrite E in H. discriminate H.
-Qed.
+Definition ex_conf_unsorted : FmtTok.fmt_config :=
+  FmtTok.FmtConfig 2 1 FmtTok.ISpace (Some 120%N) true false false true false true false false FmtTok.CSharp true false true.
+
+Example ex_prog_token_model :
+  map to_tok (flat_map ystmt (vstmts (norm_vcl ex_conf_unsorted (Vcl ex_prog false))))
+  = FmtTok.significant (FmtNorm.norm ex_conf_unsorted (to_elts (flat_map ystmt ex_prog))).
+Proof. vm_compute. reflexivity. Qed.
 
 (* ---------------------------------------------------------------- C14 at tree level (expressions, return):
    normalising the normalised tree changes nothing *)
